@@ -542,6 +542,7 @@ class Interp:
         self.modstack = [mod]
         self.gbase: list[int] = []
         self.defstack: list[dict] = []
+        self.fnstack: list = []
         self.rematerialising = 0
         self.rets = []
 
@@ -633,6 +634,49 @@ class Interp:
         elif sg is None and lb is not None and lb >= 0:
             sg = "nonneg"
         return Abs(v.k, v.deps, sym=v.sym, cap=v.cap, sign=sg, neg=v.neg, lb=lb, ub=ub)
+
+    def clamped_difference(self, n, env, g):
+        """`max(0, need - income)`: what is subtracted must itself be non-negative, or the clamped amount exceeds
+        the need.  Records a 'clamped-minus' event for every subtracted sub-expression whose sign is unknown."""
+        zero = [a for a in n.args if isinstance(a, ast.Constant) and a.value in (0, 0.0) and not isinstance(a.value, bool)]
+        if len(zero) != 1:
+            return
+        e = next(a for a in n.args if a is not zero[0])
+        exprs = [e]
+        if isinstance(e, ast.Name) and self.defstack and e.id in self.defstack[-1]:
+            exprs = [self.defstack[-1][e.id]]
+        elif isinstance(e, ast.Name) and self.fnstack:
+            # assigned on several branches (`if c: out = 0.0 else: out = need - income`): every assigned expression
+            exprs = [st.value for st in ast.walk(self.fnstack[-1]) if isinstance(st, ast.Assign) and len(st.targets) == 1
+                     and isinstance(st.targets[0], ast.Name) and st.targets[0].id == e.id]
+        subs = []
+
+        def walk(x, negated):
+            if isinstance(x, ast.BinOp) and isinstance(x.op, ast.Sub):
+                walk(x.left, negated)
+                if negated:
+                    return
+                subs.append(x.right)
+            elif isinstance(x, ast.BinOp) and isinstance(x.op, ast.Add) and not negated:
+                walk(x.left, negated)
+                walk(x.right, negated)
+
+        for e_ in exprs:
+            walk(e_, False)
+        if not subs:
+            return
+        self.rematerialising += 1
+        ev_save, self.events = self.events, []
+        try:
+            vals = [(x, self.ev(x, env, g)) for x in subs]
+        except Exception:  # noqa: BLE001
+            vals = []
+        finally:
+            self.events = ev_save
+            self.rematerialising -= 1
+        for x, v in vals:
+            if sign_of(v) is None:
+                self.E("clamped-minus", n, ast.unparse(n)[:100], ast.unparse(x)[:80], sorted(neg_of(v)), sorted(value_deps(v)), guards=g)
 
     def ev_Constant(self, n, env, g):
         return Conc(n.value)
@@ -1222,6 +1266,8 @@ class Interp:
             except Exception as e:  # noqa: BLE001
                 self.E("fold-exc", n, ast.unparse(n), type(e).__name__, guards=g)
         if fname in ("min", "max") and not shadow:
+            if fname == "max" and len(n.args) == 2 and not self.rematerialising:
+                self.clamped_difference(n, env, g)
             if len(args) > 1:
                 src = args
             else:
@@ -1314,6 +1360,19 @@ class Interp:
             elif not isinstance(ic, Conc):
                 ks |= {"int"} if ic is not None and "int" in kinds(ic) else set()
             sg = None
+            if all(k in a and alts(a[k]) is not None for k in need[1:]) and not all(isinstance(a[k], Conc) for k in need[1:]):
+                # the schedule is selected by a data-dependent branch (single / married): every candidate must be >= 0
+                lists = [alts(a[k]) for k in need[1:]]
+                rmv = a.get("rates_multiplier")
+                ms = None if rmv is None or (isinstance(rmv, Conc) and rmv.v is None) else (sign_of(rmv) or "unknown")
+                try:
+                    import itertools as _it
+
+                    combos = list(zip(*lists)) if len({len(x) for x in lists}) == 1 else list(_it.product(*lists))
+                    if combos and len(combos) <= 8 and all(pw_nonneg(t_, r_, i_, sign_of(a["x"]) is not None, ms) for t_, r_, i_ in combos):
+                        sg = "nonneg"
+                except Exception as e:  # noqa: BLE001
+                    self.E("fold-exc", n, ast.unparse(n)[:80], type(e).__name__, guards=g)
             if all(k in a and isinstance(a[k], Conc) for k in need[1:]):
                 rmv = a.get("rates_multiplier")
                 try:
@@ -1500,11 +1559,13 @@ class Interp:
         rets = []
         self.gbase.append(len(guards))
         self.defstack.append(single_defs(fd))
+        self.fnstack.append(fd)
         try:
             cont = self.block(fd.body, env, list(guards), rets)
         finally:
             self.gbase.pop()
             self.defstack.pop()
+            self.fnstack.pop()
         if cont:
             rets.append((Conc(None), tuple(guards), fd.lineno))
         r = None
